@@ -495,7 +495,7 @@ func main() {
 	ms := modules()
 	root := rng.New(a.Seed)
 	rep := emit.NewReport("C18", a.Seed, a.Tier)
-	rep.Rule = "handler cases: one of the five parser/updater/rule-manager combinations, an alphabet of 4-10 payloads (valid arrays, the same array re-serialised, arrays with null elements, wrongly typed elements or documents, truncated JSON, empty input, whitespace, null/[], unknown/duplicate/out-of-range fields, arrays with a rule whose custom generator can be made to fail) and 6-14 deliveries with repeats; plus every delivery sequence up to length 2 (quick) / 3 (thorough) over a fixed 6-payload alphabet per module. Non-trivial = the case contains at least one delivery that changed the rules in force, one rejected delivery and one identical re-delivery; distinct by full input. File cases: a real RefreshableFileDataSource on a temp file (partial: fsnotify timing). Wire cases: Coq encoder output fed to the real parsers."
+	rep.Rule = "handler cases: one of the five parser/updater/rule-manager combinations, an alphabet of 4-10 payloads (valid arrays, the same array re-serialised, arrays with null elements, wrongly typed elements or documents, truncated JSON, empty input, whitespace, null/[], unknown/duplicate/out-of-range fields, arrays with a rule whose custom generator can be made to fail) and 6-14 deliveries with repeats; plus every delivery sequence up to length 2 (quick) / 3 (thorough) over a fixed 6-payload alphabet per module. Non-trivial = the case contains at least one delivery that changed the rules in force, one rejected delivery and one identical re-delivery; distinct by full input. Wire cases (wire_* counters): one payload through the real *JsonArrayParser of a random module - Go json.Marshal output, the model encoder's output, hand-written variants, malformed payloads, fixed documents - compared field for field with Model/Json.v's decoder inside Coq when the payload lies in the model's byte subset; payloads describing loadable rules are also delivered to a real handler. File cases (file_* counters): a real RefreshableFileDataSource on a temp file driven through write / truncate / chmod / rename-away (+ new file) / remove (partial: fsnotify timing, 3 s bounds)."
 	nCorr := a.Pick(a.N, 260, 3000)
 	nMon := a.Pick(a.Mon, 3000, 40000)
 	exhLen := 2
@@ -593,7 +593,8 @@ func main() {
 	rep.Notes = append(rep.Notes,
 		"classification of every payload (undecodable / empty / rule list with nil elements) is taken from the real *JsonArrayParser (encoding/json is an oracle); validity of a decoded rule from the module's IsValidRule",
 		"loader failures are injected through the public generator extension points of circuitbreaker and hotspot (a custom strategy whose generator panics while armed)",
-		"file datasource part is partial: fsnotify delivery and timing are runtime behaviour; the harness polls with a deadline")
+		"file datasource part is partial: fsnotify delivery and timing are runtime behaviour; the harness polls with a deadline",
+		"wire cases: float64 fields are compared by IEEE bits against strconv.ParseFloat of the literal (oracle table); hotspot SpecificItems against an independent conversion; payloads outside the model's byte subset (escapes, non-ASCII, 3+ digit exponents) are counted and not compared")
 	if sh != nil {
 		rep.Shards = sh.Close()
 	}
